@@ -217,35 +217,82 @@ func safeExec(p Prop, plan *Plan, x *Ctx) (out *Outcome) {
 	return p.Exec(plan, x)
 }
 
-func writeU64s(path string, xs []uint64) {
+// distinctSet counts distinct 64-bit signatures in bounded memory. While there are at most
+// distinctCap of them it is exact; past that it keeps the uniform sample whose mixed value has
+// its low `level` bits zero (adaptive sampling, Wegman / Flajolet 1990): the estimate is
+// len * 2^level, and sets of several workers merge by taking the largest level.
+// (Unbounded sets made 16 thorough workers of C16 grow to 6 GB each and the kernel killed one.)
+type distinctSet struct {
+	level uint
+	m     map[uint64]struct{}
+}
+
+const distinctCap = 1 << 20
+
+func newDistinctSet() *distinctSet { return &distinctSet{m: map[uint64]struct{}{}} }
+
+func mix64(x uint64) uint64 {
+	x += 0x9e3779b97f4a7c15
+	x = (x ^ (x >> 30)) * 0xbf58476d1ce4e5b9
+	x = (x ^ (x >> 27)) * 0x94d049bb133111eb
+	return x ^ (x >> 31)
+}
+
+func (d *distinctSet) keeps(h uint64) bool { return mix64(h)&(1<<d.level-1) == 0 }
+
+func (d *distinctSet) raise(level uint) {
+	if level <= d.level {
+		return
+	}
+	d.level = level
+	for k := range d.m {
+		if !d.keeps(k) {
+			delete(d.m, k)
+		}
+	}
+}
+
+func (d *distinctSet) Add(h uint64) {
+	if !d.keeps(h) {
+		return
+	}
+	d.m[h] = struct{}{}
+	for len(d.m) > distinctCap {
+		d.raise(d.level + 1)
+	}
+}
+
+func (d *distinctSet) Estimate() int { return len(d.m) << d.level }
+
+// file format: the level, then the kept signatures, little endian 64-bit words
+func (d *distinctSet) write(path string) {
+	xs := make([]uint64, 0, len(d.m))
+	for k := range d.m {
+		xs = append(xs, k)
+	}
 	sort.Slice(xs, func(i, j int) bool { return xs[i] < xs[j] })
-	buf := make([]byte, 8*len(xs))
+	buf := make([]byte, 8*(len(xs)+1))
+	binary.LittleEndian.PutUint64(buf, uint64(d.level))
 	for i, x := range xs {
-		binary.LittleEndian.PutUint64(buf[8*i:], x)
+		binary.LittleEndian.PutUint64(buf[8*(i+1):], x)
 	}
 	if err := os.WriteFile(path, buf, 0o644); err != nil {
 		fatal2("write %s: %v", path, err)
 	}
 }
 
-func readU64s(path string) []uint64 {
+func (d *distinctSet) mergeFile(path string) {
 	b, err := os.ReadFile(path)
 	if err != nil {
 		fatal2("read %s: %v", path, err)
 	}
-	xs := make([]uint64, len(b)/8)
-	for i := range xs {
-		xs[i] = binary.LittleEndian.Uint64(b[8*i:])
+	if len(b) < 8 || len(b)%8 != 0 {
+		fatal2("bad signature file %s (%d bytes)", path, len(b))
 	}
-	return xs
-}
-
-func keys(m map[uint64]struct{}) []uint64 {
-	out := make([]uint64, 0, len(m))
-	for k := range m {
-		out = append(out, k)
+	d.raise(uint(binary.LittleEndian.Uint64(b)))
+	for i := 8; i < len(b); i += 8 {
+		d.Add(binary.LittleEndian.Uint64(b[i:]))
 	}
-	return out
 }
 
 func runBatch(t *testing.T) {
@@ -254,10 +301,7 @@ func runBatch(t *testing.T) {
 	w := &WorkerOut{Property: p.ID(), Seed: *fSeed, From: *fFrom, To: *fTo, Stride: *fStride,
 		ClassCounts: map[string]int{}, Faults: map[string]int{}, Probes: map[string]int{}, Observations: map[string]int{},
 		Hashes: map[string]string{}, SHashes: map[string]string{}, RaceBuild: RaceBuild}
-	sigs := map[uint64]struct{}{}
-	states := map[uint64]struct{}{}
-	scheds := map[uint64]struct{}{}
-	pairs := map[uint64]struct{}{}
+	sigs, states, scheds, pairs := newDistinctSet(), newDistinctSet(), newDistinctSet(), newDistinctSet()
 	var longest, middle, first *Plan
 	mid := *fFrom + ((*fTo-*fFrom)/2/max(1, *fStride))*max(1, *fStride)
 	progress := *fOut + ".progress"
@@ -288,16 +332,16 @@ func runBatch(t *testing.T) {
 		w.Evaluations++
 		if out.Nontrivial {
 			w.Nontrivial++
-			sigs[out.CaseSig] = struct{}{}
+			sigs.Add(out.CaseSig)
 		}
 		for _, s := range out.ModelStates {
-			states[s] = struct{}{}
+			states.Add(s)
 		}
 		if out.Switches > 0 {
-			scheds[out.SchedSig] = struct{}{}
+			scheds.Add(out.SchedSig)
 		}
 		for k := range out.SwitchPairs {
-			pairs[uint64(uint32(k[0]))<<32|uint64(uint32(k[1]))] = struct{}{}
+			pairs.Add(uint64(uint32(k[0]))<<32 | uint64(uint32(k[1])))
 		}
 		for k, v := range out.Faults {
 			w.Faults[k] += v
@@ -346,10 +390,10 @@ func runBatch(t *testing.T) {
 	}
 	w.SiteHits = SiteHitsSnapshot()
 	w.WallS = time.Since(start).Seconds()
-	writeU64s(*fOut+".sigs", keys(sigs))
-	writeU64s(*fOut+".states", keys(states))
-	writeU64s(*fOut+".scheds", keys(scheds))
-	writeU64s(*fOut+".pairs", keys(pairs))
+	sigs.write(*fOut + ".sigs")
+	states.write(*fOut + ".states")
+	scheds.write(*fOut + ".scheds")
+	pairs.write(*fOut + ".pairs")
 	b, _ := json.Marshal(w)
 	if err := os.WriteFile(*fOut+".json", b, 0o644); err != nil {
 		fatal2("write: %v", err)
@@ -358,17 +402,18 @@ func runBatch(t *testing.T) {
 
 // runMerge counts the distinct signatures over all workers of a batch.
 func runMerge(t *testing.T) {
-	res := map[string]int{}
-	for _, kind := range []string{"sigs", "states", "scheds", "pairs"} {
-		var all []uint64
-		inputs := *fInputs
-		if strings.HasPrefix(inputs, "@") {
-			b, err := os.ReadFile(inputs[1:])
-			if err != nil {
-				fatal2("read %s: %v", inputs[1:], err)
-			}
-			inputs = strings.ReplaceAll(string(b), "\n", ",")
+	res := map[string]any{}
+	sampled := map[string]int{}
+	inputs := *fInputs
+	if strings.HasPrefix(inputs, "@") {
+		b, err := os.ReadFile(inputs[1:])
+		if err != nil {
+			fatal2("read %s: %v", inputs[1:], err)
 		}
+		inputs = strings.ReplaceAll(string(b), "\n", ",")
+	}
+	for _, kind := range []string{"sigs", "states", "scheds", "pairs"} {
+		all := newDistinctSet()
 		for _, pre := range strings.Split(inputs, ",") {
 			if pre == "" {
 				continue
@@ -376,17 +421,14 @@ func runMerge(t *testing.T) {
 			if _, err := os.Stat(pre + "." + kind); err != nil {
 				continue
 			}
-			all = append(all, readU64s(pre+"."+kind)...)
+			all.mergeFile(pre + "." + kind)
 		}
-		sort.Slice(all, func(i, j int) bool { return all[i] < all[j] })
-		n := 0
-		for i := range all {
-			if i == 0 || all[i] != all[i-1] {
-				n++
-			}
+		res[kind] = all.Estimate()
+		if all.level > 0 {
+			sampled[kind] = 1 << all.level
 		}
-		res[kind] = n
 	}
+	res["sampled"] = sampled
 	b, _ := json.Marshal(res)
 	if err := os.WriteFile(*fOut, b, 0o644); err != nil {
 		fatal2("write: %v", err)
